@@ -849,7 +849,12 @@ class TreeGen:
             if k == "in":
                 t = r.choice(["int", "int", "str"])
                 vals = self.in_values(t)
-                return [r.choice(["in", "notin"]), self.expr(t, d), vals]
+                x = self.expr(t, d)
+                if t == "str" and not sa_str_typed(x):
+                    x = self.leaf("str")  # the list's bind type follows the left side's SA type
+                if t == "int" and utype(x) != "int":
+                    x = self.leaf("int")
+                return [r.choice(["in", "notin"]), x, vals]
             return self.generic(k, ty, d)
         raise ValueError(ty)
 
